@@ -22,7 +22,7 @@ for pid in ids:
         "level_claimed": {"category": a.get("level", "proof"), "text": a["level_text"], "design_ref": a.get("design_ref", "DESIGN.md section 6, " + pid)},
         "level_note": a["level_note"],
         "technique": a.get("technique", "machine-checked proof in Coq 8.16.1 of theorems about an executable Gallina model, tied to /repo by differential correspondence checking (extracted OCaml model vs Go implementation) on every run"
-                            + ("; constants / tables" + (" and modbus.RtuCrc" if pid == "C19" else "") + " are regenerated from the Go sources by a translator before every build and the *_from_source theorems re-checked against them"
+                            + ("; constants / tables" + (" and modbus.RtuCrc" if pid == "C19" else " and data.Point.CRC" if pid == "C03" else "") + " are regenerated from the Go sources by a translator before every build and the *_from_source theorems re-checked against them"
                                if any(str(x).startswith("Anchors/") for x in a.get("coq", [])) else "")),
     })
 na = [{"property_id": pid, "reason": NOT_CLAIMED.get(pid, WIP)} for pid in ids if pid not in AREAS or not AREAS[pid].get("ready", True)]
